@@ -100,6 +100,7 @@ def _load():
     from .oracles.c08 import C08
     from .oracles.c09 import C09
     from .oracles.c10 import C10
+    from .oracles.c11 import C11
 
     wide = profile()
     faulty = profile(f_zero=0.8, f_infarr=0.3, f_batch0=0.8, qcap=0.7, sched=0.35, renege=0.4, batch=0.4)
@@ -146,6 +147,12 @@ def _load():
                      "distinct history digest; non-trivial = >=3 arrivals on one stream and >=1 completed service audited against its sample "
                      "(F5 sub-profile: one invalid sample planted per run; counters F5:planted/served/raised reported)",
                      B(40000, 400000), post=plant_bad_sample))
+    pre = profile(ordinary_only=True, n=[1, 1, 2], k=[2, 3, 3], prio=1.0, preempt=1.0, sched=0.0, inf=0.0, zero=0.0, slot=0.0, ps=0.0,
+                  qcap=0.0, syscap=0.0, renege=0.0, batch=0.4, cct=0.2, ccm=0.2, exact=0.0, jockey=0.0,
+                  preempt_opts=["resume", "restart", "resample", "reroute", "resume", "restart", "resample", False])
+    register(Profile("C11", [C11], [(1, pre)],
+                     "distinct history digest; non-trivial = >=1 pre-emption (probe: the same customer pre-empted twice)",
+                     B(40000, 400000)))
     cap = profile(qcap=0.9, qcap_vals=[INF, 0, 0, 1, 2, 3], syscap=0.4, batch=0.5, baulk=0.4, renege=0.3, jockey=0.5, n=[1, 2, 2, 3], **NOREROUTE)
     register(Profile("C06", [C06], [(1, cap)],
                      "distinct history digest; non-trivial = >=1 rejection and >=1 admission into a node holding capacity-1",
